@@ -73,6 +73,8 @@ def unit_descs(kind, k):
                 ((G, "QueryStatus", (a,)), 0)]
     if kind == "R":
         return [((G, "DTR1", (k,)), 0), (dt_cmd_desc(k), DT[k])]
+    if kind == "W":         # hand-written transaction holding transaction_lock itself (in_transaction=True calls), incl. power_supply
+        return [((G, "DTR0", (k,)), 0), ("power", 1), ((G, "QueryStatus", (a,)), 0), ((G, "DTR1", (k,)), 0)]
     if kind == "M":         # ONE sequence with commands of several different device types
         return [(("gear.led", "QueryFastFadeTime", (a,)), 6), (("gear.colour", "Activate", (a,)), 8), ((G, "QueryStatus", (a,)), 0),
                 (("gear.emergency", "QueryEmergencyMode", (a,)), 1), (("gear.led", "QueryFastFadeTime", (a,)), 6)]
@@ -83,6 +85,9 @@ def expand(kind, k, driver):
     """Frames in wire order: (bits, value, twice) with the device-type prefix inserted."""
     out = []
     for desc, dt in unit_descs(kind, k):
+        if desc == "power":
+            out.append(("power", dt, False))
+            continue
         if dt:
             b, v = R.encode(("gear.general", "EnableDeviceType", (dt,)))
             out.append((b, v, False))
@@ -110,6 +115,16 @@ def make_caller(kind, k, gens):
         largs = [GearShort(x[1]) if isinstance(x, tuple) else x for x in args]
         return cls(*largs)
     descs = [d for d, dt in unit_descs(kind, k)]
+    if kind == "W":
+        async def co(w):
+            d = w.driver
+            async with d.transaction_lock:
+                await d.send(lib(descs[0]), in_transaction=True)
+                await d.power_supply(True, in_transaction=True)
+                r = await d.send(lib(descs[2]), in_transaction=True)
+                await d.send(lib(descs[3]), in_transaction=True)
+            return ("done", k, r is not None)
+        return Caller(f"{kind}{k}", co)
     if kind in ("P", "Q", "D", "T", "C", "Y"):
         async def co(w):
             return await w.driver.send(lib(descs[0]))
@@ -206,13 +221,15 @@ def partition(wire, units, outcomes):
 
 
 def fmt(f):
+    if f[0] == "power":
+        return f"power({f[1]})"
     return f"{f[1]:#06x}" + ("x2" if f[2] else "")
 
 
 def judge(res, driver, kinds, w, obs):
     case = {"driver": driver, "kinds": list(kinds), "trace_len": len(w.trace)}
     tag = f"{driver}"
-    wire = [(b, v, t) for (b, v, t, _) in obs["wire"] if isinstance(b, int)]
+    wire = [(b, v, t) for (b, v, t, _) in obs["wire"] if isinstance(b, int) or b == "power"]
     if driver in ("luba", "sci"):
         pass
     names = [f"{kd}{i + 1}" for i, kd in enumerate(kinds)]
@@ -260,9 +277,9 @@ def judge(res, driver, kinds, w, obs):
 def _has_prefixes(wire, frames):
     """every device-type command of this unit that is on the wire is immediately preceded by an 0xC1xx frame"""
     for i, f in enumerate(frames):
-        if i and (frames[i - 1][1] >> 8) == 0xC1:
+        if i and frames[i - 1][0] != "power" and (frames[i - 1][1] >> 8) == 0xC1:
             for j, wf in enumerate(wire):
-                if wf == f and (j == 0 or (wire[j - 1][1] >> 8) != 0xC1):
+                if wf == f and (j == 0 or wire[j - 1][0] == "power" or (wire[j - 1][1] >> 8) != 0xC1):
                     return False
     return True
 
@@ -293,6 +310,11 @@ def shards(tier):
                 out.append(("run", drv, tr, 2))
             for q in itertools.product(["S", "D"], repeat=4):
                 out.append(("run", drv, q, 1))
+        # a hand-written transaction (the caller holds transaction_lock; send / power_supply with in_transaction=True)
+        if drv == "tridonic":
+            for shard_ in (("eager", drv, ("W", "P", "S"), 1), ("eager", drv, ("W", "Q"), 2), ("run", drv, ("W", "P"), 1 if tier == "quick" else 2),
+                           ("run", drv, ("P", "W"), 1), ("eager", drv, ("S", "W", "D"), 1), ("run", drv, ("W",), 2)):
+                out.append(shard_)
         # one sequence that switches between device types (the prefix must match EACH command)
         out.append(("run", drv, ("M",), 2))
         for x in ("P", "Q", "D", "S", "M"):
